@@ -8,6 +8,7 @@ import (
 	"math/rand"
 	"os"
 	"path/filepath"
+	"runtime/debug"
 	"sort"
 	"strconv"
 	"strings"
@@ -131,6 +132,7 @@ type Summary struct {
 	ChunkLens    []int             `json:"chunk_lens"`
 	Samples      []json.RawMessage `json:"samples"`
 	Extra        map[string]any    `json:"extra,omitempty"`
+	Panics       []string          `json:"panics,omitempty"`
 }
 
 // Flush writes the distinct events into `chunks` files under dir (sorted, so that
@@ -182,9 +184,19 @@ func (r *Recorder) Flush(dir, prefix string, chunks int) *Summary {
 }
 
 func printSummary(s *Summary) {
+	libPanicMu.Lock()
+	s.Panics = libPanics
+	libPanicMu.Unlock()
 	b, _ := json.Marshal(s)
 	fmt.Println(string(b))
 }
+
+// panics of the library that escaped while the harness used it from several goroutines (each on its own objects): the
+// harness goes on and reports them in its summary; the check turns them into a violation
+var (
+	libPanicMu sync.Mutex
+	libPanics  []string
+)
 
 // parallelFor runs fn(worker, i) for i in [0,n) on all CPUs.
 func parallelFor(n, workers int, fn func(w, i int)) {
@@ -196,7 +208,22 @@ func parallelFor(n, workers int, fn func(w, i int)) {
 		go func(w int) {
 			defer wg.Done()
 			for i := w; i < n; i += workers {
-				fn(w, i)
+				func() {
+					defer func() {
+						if r := recover(); r != nil {
+							libPanicMu.Lock()
+							if len(libPanics) < 5 {
+								st := string(debug.Stack())
+								if len(st) > 1500 {
+									st = st[:1500]
+								}
+								libPanics = append(libPanics, asciiSafe(fmt.Sprintf("item %d: %v\n%s", i, r, st)))
+							}
+							libPanicMu.Unlock()
+						}
+					}()
+					fn(w, i)
+				}()
 			}
 		}(w)
 	}
